@@ -8,7 +8,7 @@ use crate::{Outcome, Tier};
 use serde_json::{json, Value};
 use std::collections::{BTreeMap, VecDeque};
 
-const TARGETS: [&str; 4] = ["m", "e", "L", "sub/e"];
+const TARGETS: [&str; 5] = ["m", "e", "L", "sub/e", "z"]; // missing, existing shorter, existing longer, in a subdirectory, existing EMPTY
 
 fn optsets() -> Vec<Vec<(String, String)>> {
     vec![vec![], vec![("blksize".into(), "8".into())], vec![("tsize".into(), "0".into()), ("windowsize".into(), "2".into())]]
@@ -41,6 +41,7 @@ fn initial_tree() -> Tree {
         t.insert(format!("{base}/e"), content(10, 11));
         t.insert(format!("{base}/L"), content(100, 12));
         t.insert(format!("{base}/sub/e"), content(10, 13));
+        t.insert(format!("{base}/z"), vec![]);
     }
     t
 }
@@ -67,7 +68,12 @@ struct Obs {
 }
 
 /// Applies one action on the current on-disk state and judges it against the reference policy.
-fn apply(srv: &Srv, cfg: &SrvCfg, before: &Tree, a: &Action, depth: usize, aidx: usize) -> Obs {
+fn apply(srv: &Srv, cfg: &SrvCfg, before: &Tree, a: &Action, depth: usize, aidx: usize, session: &mut Option<Client>) -> Obs {
+    // session = Some: every request of this cell comes from ONE client socket (same endpoint again and again), so state the
+    // server keeps per endpoint is carried from request to request; None: a fresh socket (fresh TID) per request
+    if let Some(c) = session.as_mut() {
+        c.reset_for_reuse();
+    }
     let name = TARGETS[a.target];
     let opts = &optsets()[a.optset];
     let rel_send = &srv.send_dir[srv.root.len()..];
@@ -79,7 +85,10 @@ fn apply(srv: &Srv, cfg: &SrvCfg, before: &Tree, a: &Action, depth: usize, aidx:
     let summary;
     if !a.write {
         let exists = before.get(&format!("{rel_send}/{name}"));
-        let r = download(srv, name.as_bytes(), opts);
+        let r = match session.as_mut() {
+            Some(c) => download_on(c, srv, name.as_bytes(), opts, None, 0),
+            None => download(srv, name.as_bytes(), opts),
+        };
         summary = format!("R err={:?} done={} len={}", r.error.as_ref().map(|e| e.0), r.completed, r.data.len());
         match exists {
             None => {
@@ -104,7 +113,10 @@ fn apply(srv: &Srv, cfg: &SrvCfg, before: &Tree, a: &Action, depth: usize, aidx:
         let key = format!("{rel_recv}/{name}");
         let exists = before.contains_key(&key);
         let pl = payload(depth, aidx);
-        let r = upload(srv, name.as_bytes(), opts, &pl);
+        let r = match session.as_mut() {
+            Some(c) => upload_on(c, srv, name.as_bytes(), opts, &pl),
+            None => upload(srv, name.as_bytes(), opts, &pl),
+        };
         summary = format!("W err={:?} done={}", r.error.as_ref().map(|e| e.0), r.completed);
         let after = snapshot(&srv.root);
         let d = tree_diff(before, &after);
@@ -160,13 +172,14 @@ pub fn cell(spec: &Value) -> Value {
     let depth_max = spec["depth"].as_u64().unwrap() as usize;
     let first: Option<usize> = spec["first"].as_u64().map(|x| x as usize);
     let mut c = Counters::default();
-    let srv = match server_for(&cfg) {
+    let srv = match if cfg.single { server_fresh(&cfg) } else { server_for(&cfg) } {
         Ok(s) => s,
         Err(e) => return json!({"machinery_error": format!("server start: {e}")}),
     };
     let acts = actions();
     let init = initial_tree();
     restore(&srv.root, &init);
+    let mut session: Option<Client> = if spec["reuse_endpoint"].as_bool().unwrap_or(false) { Some(Client::new(srv.addr)) } else { None };
     // BFS over tree states
     let mut seen: BTreeMap<u64, String> = BTreeMap::new(); // state -> probe outcome at first visit
     let mut frontier: VecDeque<(Tree, Vec<usize>)> = VecDeque::new();
@@ -195,7 +208,7 @@ pub fn cell(spec: &Value) -> Value {
                 }
             }
             restore(&srv.root, &state);
-            let obs = apply(&srv, &cfg, &state, a, d, ai);
+            let obs = apply(&srv, &cfg, &state, a, d, ai, &mut session);
             c.executions += 1;
             c.transitions += 1;
             if obs.transferred {
@@ -209,8 +222,8 @@ pub fn cell(spec: &Value) -> Value {
                     property: "C06".into(),
                     clause,
                     facts: facts(&[("write", json!(a.write))]),
-                    what: format!("[{}] after actions {:?}: {}", cfg.brief(), path, what),
-                    replay: json!({"engine": "e2_c06", "srv": cfg.to_json(), "actions": p2}),
+                    what: format!("[{}{}] after actions {:?}: {}", cfg.brief(), if session.is_some() { ", all requests from one endpoint" } else { "" }, path, what),
+                    replay: json!({"engine": "e2_c06", "srv": cfg.to_json(), "actions": p2, "reuse_endpoint": session.is_some()}),
                     weight: p2.len() as u64 * 100 + ai as u64,
                 });
             }
@@ -283,11 +296,13 @@ pub fn check(tier: Tier) -> Outcome {
     let depth = if tier == Tier::Quick { 2 } else { 3 };
     let mut cells = vec![];
     for s in configs() {
-        if tier == Tier::Quick {
-            cells.push(json!({"srv": s.to_json(), "depth": depth}));
-        } else {
-            for f in 0..actions().len() {
-                cells.push(json!({"srv": s.to_json(), "depth": depth, "first": f}));
+        for reuse in [false, true] {
+            if tier == Tier::Quick {
+                cells.push(json!({"srv": s.to_json(), "depth": depth, "reuse_endpoint": reuse}));
+            } else {
+                for f in 0..actions().len() {
+                    cells.push(json!({"srv": s.to_json(), "depth": depth, "first": f, "reuse_endpoint": reuse}));
+                }
             }
         }
     }
@@ -295,7 +310,7 @@ pub fn check(tier: Tier) -> Outcome {
     let res = run_cells("c06", cells, &crate::pool_opts(tier));
     let mut out = Outcome::new("C06", "model_checking");
     out.absorb(res, n);
-    out.rule = format!("explicit-state breadth-first search over file-tree states (state = sorted (path, bytes) snapshot, deduplicated by hash) from the initial tree {{e 10 B, L 100 B, sub/e}}; transitions = 24 request actions ({{RRQ,WRQ}} x {{missing, existing shorter, existing longer, in subdirectory}} x {{no options, blksize 8, tsize+windowsize 2}}; uploads carry a 40-byte payload unique per (depth, action)) carried to their end against the real Server; depth <= {depth}; 32 configurations ({{read-only}} x {{overwrite}} x {{clean,keep}} x {{single,multi}} x {{shared,distinct dirs}}). Every transition is judged by a reference policy function (ERROR 2 / 6 / 1, refusal from the listening port, no transfer thread, disk unchanged; accepted uploads replace the content entirely). A tree reached a second time by another path is probed and compared with its first visit (hidden-state guard). non-trivial = transitions that transferred a file.");
+    out.rule = format!("explicit-state breadth-first search over file-tree states (state = sorted (path, bytes) snapshot, deduplicated by hash) from the initial tree {{e 10 B, L 100 B, sub/e}}; transitions = 30 request actions ({{RRQ,WRQ}} x {{missing, existing shorter, existing longer, in subdirectory, existing empty}} x {{no options, blksize 8, tsize+windowsize 2}}; uploads carry a 40-byte payload unique per (depth, action)) carried to their end against the real Server; depth <= {depth}; 32 configurations, each explored once with a fresh client socket per request and once with ALL requests from one client endpoint ({{read-only}} x {{overwrite}} x {{clean,keep}} x {{single,multi}} x {{shared,distinct dirs}}). Every transition is judged by a reference policy function (ERROR 2 / 6 / 1, refusal from the listening port, no transfer thread, disk unchanged; accepted uploads replace the content entirely). A tree reached a second time by another path is probed and compared with its first visit (hidden-state guard). non-trivial = transitions that transferred a file.");
     out.assumptions = vec!["the server's own worker threads are not scheduled by the harness; the driver keeps one request in flight and waits for quiescence".into()];
     out
 }
@@ -309,10 +324,11 @@ pub fn replay(v: &Value) -> String {
     let acts = actions();
     restore(&srv.root, &initial_tree());
     let mut s = String::new();
+    let mut session: Option<Client> = if v["reuse_endpoint"].as_bool().unwrap_or(false) { Some(Client::new(srv.addr)) } else { None };
     let path: Vec<usize> = v["actions"].as_array().map(|a| a.iter().map(|x| x.as_u64().unwrap() as usize).collect()).unwrap_or_default();
     for (d, ai) in path.iter().enumerate() {
         let before = snapshot(&srv.root);
-        let o = apply(&srv, &cfg, &before, &acts[*ai], d, *ai);
+        let o = apply(&srv, &cfg, &before, &acts[*ai], d, *ai, &mut session);
         s.push_str(&format!("step {d}: {} {} opts#{} -> {} violations {:?}\n", if acts[*ai].write { "WRQ" } else { "RRQ" }, TARGETS[acts[*ai].target], acts[*ai].optset, o.summary, o.viol));
     }
     let _ = rc::ack(0);
